@@ -5,6 +5,7 @@ for the `arity.rs` loops (§3) and the lane-split aggregates (§4).
 -/
 set_option linter.unusedSimpArgs false
 set_option linter.unusedVariables false
+set_option linter.unusedSectionVars false
 namespace ArrowModel.C12
 open ArrowModel.Generated.C12
 
@@ -448,6 +449,165 @@ theorem sumCheckedLoop_spec (t : NT) (acc : Int) (xs : List Int) (vs : List Bool
         · simp only [hr, ↓reduceIte, Bool.true_and]
           exact ih (acc + x) vs
         · simp [hr, optOr]
+
+/-! ### lane-split accumulation and tree reduction -/
+
+/-- right fold with the accumulator operation -/
+def sumL {α} (op : α → α → α) (e : α) (l : List α) : α := l.foldr op e
+/-- the values at valid slots -/
+def validVals {α} (xs : List (α × Bool)) : List α := xs.filterMap (fun p => if p.2 then some p.1 else none)
+
+theorem validVals_append {α} (l1 l2 : List (α × Bool)) : validVals (l1 ++ l2) = validVals l1 ++ validVals l2 := by
+  simp [validVals, List.filterMap_append]
+
+section
+variable {α : Type} (op : α → α → α) (e : α)
+  (hc : ∀ x y, op x y = op y x) (ha : ∀ x y z, op (op x y) z = op x (op y z)) (he : ∀ x, op e x = x)
+include hc ha he
+
+theorem op_e (x : α) : op x e = x := by rw [hc, he]
+
+theorem sumL_append (l1 l2 : List α) : sumL op e (l1 ++ l2) = op (sumL op e l1) (sumL op e l2) := by
+  induction l1 with
+  | nil => simp [sumL, he]
+  | cons x l1 ih => simp only [sumL, List.cons_append, List.foldr_cons] at *; rw [ih, ha]
+
+theorem sumL_zipWith (l1 l2 : List α) (h : l1.length = l2.length) :
+    sumL op e (List.zipWith op l1 l2) = op (sumL op e l1) (sumL op e l2) := by
+  haveI : Std.Associative op := ⟨ha⟩
+  haveI : Std.Commutative op := ⟨hc⟩
+  induction l1 generalizing l2 with
+  | nil => cases l2 <;> simp [sumL, he] at *
+  | cons x l1 ih =>
+    cases l2 with
+    | nil => simp at h
+    | cons y l2 =>
+      simp only [List.length_cons, Nat.add_right_cancel_iff] at h
+      have := ih l2 h
+      simp only [sumL, List.zipWith_cons_cons, List.foldr_cons] at *
+      rw [this]
+      ac_rfl
+
+theorem accChunk_sum (acc : List α) (xs : List (α × Bool)) (h : xs.length ≤ acc.length) :
+    (accChunk op acc xs).length = acc.length ∧
+    sumL op e (accChunk op acc xs) = op (sumL op e acc) (sumL op e (validVals xs)) := by
+  haveI : Std.Associative op := ⟨ha⟩
+  haveI : Std.Commutative op := ⟨hc⟩
+  induction acc generalizing xs with
+  | nil =>
+    cases xs with
+    | nil => simp [accChunk, sumL, validVals, he]
+    | cons x xs => simp at h
+  | cons a acc ih =>
+    cases xs with
+    | nil => simp [accChunk, validVals, sumL, op_e op e hc ha he]
+    | cons p xs =>
+      obtain ⟨x, v⟩ := p
+      simp only [List.length_cons, Nat.add_le_add_iff_right] at h
+      have := ih xs h
+      cases v
+      · simp only [accChunk, accNullable, validVals, List.filterMap_cons, Bool.false_eq_true, ↓reduceIte, List.length_cons, sumL, List.foldr_cons] at *
+        refine ⟨by omega, ?_⟩
+        rw [this.2, ha]
+      · simp only [accChunk, accNullable, validVals, List.filterMap_cons, ↓reduceIte, List.length_cons, sumL, List.foldr_cons] at *
+        refine ⟨by omega, ?_⟩
+        rw [this.2]
+        ac_rfl
+
+theorem lanesLoop_sum (lanes : Nat) (hl : 0 < lanes) (fuel : Nat) (acc : List α) (xs : List (α × Bool))
+    (hacc : acc.length = lanes) (hf : xs.length < fuel) :
+    (lanesLoop op lanes fuel acc xs).length = lanes ∧
+    sumL op e (lanesLoop op lanes fuel acc xs) = op (sumL op e acc) (sumL op e (validVals xs)) := by
+  induction fuel generalizing acc xs with
+  | zero => omega
+  | succ fuel ih =>
+    simp only [lanesLoop]
+    split
+    · rename_i hcond
+      have h1 := accChunk_sum op e hc ha he acc (xs.take lanes) (by simp [List.length_take]; omega)
+      have h2 := ih (accChunk op acc (xs.take lanes)) (xs.drop lanes) (by omega) (by simp [List.length_drop]; omega)
+      refine ⟨h2.1, ?_⟩
+      rw [h2.2, h1.2, ha, ← sumL_append op e hc ha he, ← validVals_append, List.take_append_drop]
+    · rename_i hcond
+      have h1 := accChunk_sum op e hc ha he acc xs (by omega)
+      exact ⟨by omega, h1.2⟩
+
+theorem reduce_sum (k : Nat) (fuel : Nat) (acc : List α) (hlen : acc.length = 2 ^ k) (hf : k ≤ fuel) :
+    reduceAccumulators op e fuel acc = sumL op e acc := by
+  induction k generalizing fuel acc with
+  | zero =>
+    match acc, hlen with
+    | [a], _ =>
+      cases fuel <;> simp [reduceAccumulators, sumL, op_e op e hc ha he]
+  | succ k ih =>
+    cases fuel with
+    | zero => omega
+    | succ fuel =>
+      have h2 : acc.length ≥ 2 := by
+        have : 0 < 2 ^ k := Nat.two_pow_pos k
+        rw [hlen, Nat.pow_succ]; omega
+      have hmid : acc.length / 2 = 2 ^ k := by rw [hlen, Nat.pow_succ]; omega
+      simp only [reduceAccumulators, h2, ↓reduceIte, hmid, mergeHalves]
+      have hd : (acc.drop (2 ^ k)).length = 2 ^ k := by rw [List.length_drop, hlen, Nat.pow_succ]; omega
+      have ht : (acc.take (2 ^ k)).length = 2 ^ k := by rw [List.length_take, hlen, Nat.pow_succ]; omega
+      have hdt : (acc.drop (2 ^ k)).take (2 ^ k) = acc.drop (2 ^ k) := List.take_of_length_le (by omega)
+      rw [hdt, ih fuel _ (by rw [List.length_zipWith, ht, hd]; omega) (by omega),
+        sumL_zipWith op e hc ha he _ _ (by omega), ← sumL_append op e hc ha he, List.take_append_drop]
+theorem sumL_replicate (n : Nat) : sumL op e (List.replicate n e) = e := by
+  induction n with
+  | zero => simp [sumL]
+  | succ n ih => simp only [List.replicate_succ, sumL, List.foldr_cons] at *; rw [ih, he]
+
+theorem foldl_acc_sumL (l : List α) (acc : α) : l.foldl op acc = op acc (sumL op e l) := by
+  induction l generalizing acc with
+  | nil => simp [sumL, op_e op e hc ha he]
+  | cons x l ih => simp only [List.foldl_cons, sumL, List.foldr_cons] at *; rw [ih, ha]
+
+theorem foldl_eq_sumL (l : List α) : l.foldl op e = sumL op e l := by
+  rw [foldl_acc_sumL op e hc ha he, he]
+end
+
+theorem nonNull_decode {α} (vals : List α) (valid : List Bool) :
+    nonNull (decode vals valid) = validVals (vals.zip valid) := by
+  induction vals generalizing valid with
+  | nil => cases valid <;> simp [decode, nonNull, validVals]
+  | cons x xs ih =>
+    cases valid with
+    | nil => simp [decode, nonNull, validVals]
+    | cons v vs =>
+      have := ih vs
+      simp only [nonNull, validVals] at this
+      cases v <;> simp [decode, nonNull, validVals, this]
+
+theorem allNull_iff {α} (vals : List α) (valid : List Bool) :
+    (valid.zip vals).all (fun p => !p.1) = true ↔ validVals (vals.zip valid) = [] := by
+  induction vals generalizing valid with
+  | nil => cases valid <;> simp [validVals]
+  | cons x xs ih =>
+    cases valid with
+    | nil => simp [validVals]
+    | cons v vs =>
+      have := ih vs
+      simp only [validVals] at this
+      cases v <;> simp [validVals, this]
+
+theorem aggregateLanes_spec {α : Type} (op : α → α → α) (e : α)
+    (hc : ∀ x y, op x y = op y x) (ha : ∀ x y z, op (op x y) z = op x (op y z)) (he : ∀ x, op e x = x)
+    (k : Nat) (vals : List α) (valid : List Bool) :
+    aggregateLanes op e (2 ^ k) vals valid = reduceSpec op e (decode vals valid) := by
+  simp only [aggregateLanes, reduceSpec, nonNull_decode]
+  by_cases hn : (valid.zip vals).all (fun p => !p.1) = true
+  · rw [if_pos hn, (allNull_iff vals valid).1 hn]
+  · rw [if_neg hn]
+    have hne : validVals (vals.zip valid) ≠ [] := fun h => hn ((allNull_iff vals valid).2 h)
+    have hl := lanesLoop_sum op e hc ha he (2 ^ k) (Nat.two_pow_pos k) (vals.length + 1) (List.replicate (2 ^ k) e) (vals.zip valid)
+      (by simp) (by simp [List.length_zip]; omega)
+    have hr := reduce_sum op e hc ha he k (2 ^ k + 1) _ hl.1 (by have := @Nat.lt_two_pow_self k; omega)
+    rw [hr, hl.2, sumL_replicate op e hc ha he, he, ← foldl_eq_sumL op e hc ha he]
+    cases hv : validVals (vals.zip valid) with
+    | nil => exact absurd hv hne
+    | cons v vs => rfl
+
 
 /-! ## §5 Kleene bit formulas, §6 decimal result types -/
 
